@@ -26,17 +26,27 @@ theorem Good.mono {W W' : Nat → Prop} {ctx : Scope} {st : St} {r : R} (h : Goo
 
 /-! ### evalPrint -/
 
-theorem evalPrint_good (g : GEnv) (esc : Bool) (pos : Nat) (arg : Expr) (dirs : List Directive) :
-    GoodRun (evalPrint g esc pos arg dirs) := by
+theorem Ext.atNode (W : Nat → Prop) (st : St) (p : Nat) : Ext W st (atNode st p) := Ext.of_heap_eq rfl rfl
+
+theorem Own.atNode {ctx : Scope} {st : St} (h : Own ctx st) (p : Nat) : Own ctx (atNode st p) :=
+  h.ext (Ext.atNode (fun _ => False) st p)
+
+/-- moving `s.node` first changes nothing the invariant speaks about -/
+theorem GoodRun.at {run : Run} (h : GoodRun run) (ctx : Scope) (st : St) (p : Nat) (hown : Own ctx st) :
+    Good (fun i => i = top ctx) ctx st (run ctx (atNode st p)) :=
+  Good.after (Ext.atNode _ st p) (h ctx _ (hown.atNode p))
+
+theorem evalPrintAt_good (g : GEnv) (esc : Bool) (pos : Nat) (arg : Expr) (dirs : List Directive) :
+    GoodRun (evalPrintAt g esc pos arg dirs) := by
   intro ctx st _
-  unfold evalPrint
+  unfold evalPrintAt
   split
-  · exact Good.leaf (by simp) (Ext.refl _ _)
+  · exact Good.leaf (by simp) (Ext.of_heap_eq rfl rfl)
   · rename_i st1 h; exact Good.leaf (by simp) (evalIn_ext _ h)
   · rename_i v st1 _ h
     have e1 := evalIn_ext (fun i => i = top ctx) h
     split
-    · exact Good.leaf (by simp) e1
+    · exact Good.leaf (by simp) (e1.trans (Ext.atNode _ _ _) (fun _ _ h => h))
     · rename_i r esc' st2 hd
       have e2 := e1.trans (runDirectives_ext (fun i => i = top ctx) _ _ _ _ _ _ _ hd) (fun _ _ h => h)
       split
@@ -45,6 +55,12 @@ theorem evalPrint_good (g : GEnv) (esc : Bool) (pos : Nat) (arg : Expr) (dirs : 
         split
         · exact Ext.of_heap_eq (writeAll_heap _ _).1 (writeAll_heap _ _).2
         · exact write_ext _ _ _
+
+theorem evalPrint_good (g : GEnv) (esc : Bool) (pos : Nat) (arg : Expr) (dirs : List Directive) :
+    GoodRun (evalPrint g esc pos arg dirs) := by
+  intro ctx st hown
+  unfold evalPrint
+  exact Good.after (Ext.atNode _ st _) (evalPrintAt_good g esc pos arg dirs ctx _ (hown.atNode _))
 
 /-! ### walkBlock / renderBlock -/
 
@@ -88,7 +104,7 @@ theorem forLoop_good {body : Run} (hb : GoodRun body) (var : Bytes) (last : Int)
     ∀ (xs : List Value) (i : Nat) (ctx : Scope) (st : St), Good (fun _ => False) ctx st (forLoop body var last xs i ctx st) := by
   intro xs
   induction xs with
-  | nil => intro i ctx st; unfold forLoop; exact Good.leaf (by simp) (Ext.refl _ _)
+  | nil => intro i ctx st; unfold forLoop; exact Good.leaf (by simp) (Ext.of_heap_eq rfl rfl)
   | cons x rest ih =>
     intro i ctx st
     unfold forLoop
